@@ -3,8 +3,8 @@
 Model: coq/NodeProto.v (emit with s_min = None) + coq/CustomOp.v; theorems: coq/props/C18.v.
 
 Node classes are GENERATED AT RUN TIME (dataclasses.make_dataclass) over random declared signatures: single / optional /
-variadic inputs and outputs (also optionals before singles), every non-graph attribute kind (required / optional, set /
-unset, Attr name equal to or different from the field name), several domains and versions (two classes of one domain
+variadic inputs and outputs (also optionals before singles), every attribute kind incl. subgraphs (required / optional,
+set / unset, Attr name equal to or different from the field name), several domains and versions (two classes of one domain
 with different versions in one program), type / value hooks that are absent, partial, complete, over-complete (unknown
 keys), ill-typed (value not conforming) or raising, at five positions of a surrounding program: next to standard
 operators, inside an If branch, inside a Loop body, feeding an inlined model, fed by an inlined model.
@@ -36,11 +36,11 @@ HEADER = ("From Coq Require Import List String Bool ZArith NArith.\nFrom Spox Re
 
 DOMAINS = ["com.example", "custom.x", "com.microsoft", "org.verif.ops", "d"]
 ATTR_KINDS = ["AttrFloat32", "AttrInt64", "AttrString", "AttrTensor", "AttrType", "AttrDtype",
-              "AttrFloat32s", "AttrInt64s", "AttrStrings", "AttrTensors"]
+              "AttrFloat32s", "AttrInt64s", "AttrStrings", "AttrTensors", "AttrGraph"]
 PROTO_KIND = {"AttrFloat32": AttributeProto.FLOAT, "AttrInt64": AttributeProto.INT, "AttrString": AttributeProto.STRING,
               "AttrTensor": AttributeProto.TENSOR, "AttrType": AttributeProto.TYPE_PROTO, "AttrDtype": AttributeProto.INT,
               "AttrFloat32s": AttributeProto.FLOATS, "AttrInt64s": AttributeProto.INTS, "AttrStrings": AttributeProto.STRINGS,
-              "AttrTensors": AttributeProto.TENSORS}
+              "AttrTensors": AttributeProto.TENSORS, "AttrGraph": AttributeProto.GRAPH}
 F32 = TensorProto.FLOAT
 T23 = ["T", F32, [2, 3]]
 HOOK_TYPES = {"t23": T23, "tsym": ["T", F32, ["N", 3]], "tnoshape": ["T", F32, None], "ti64": ["T", TensorProto.INT64, [2]]}
@@ -75,6 +75,8 @@ def gen_sig(rng, idx):
 
 
 def gen_attr_value(rng, kind):
+    if kind == "AttrGraph":
+        return rng.choice(["Add", "Mul"])
     if kind == "AttrFloat32":
         return rng.choice([0.5, -1.25, 3.0, 1e-5])
     if kind == "AttrInt64":
@@ -136,6 +138,12 @@ def _array(spec):
 
 
 def attr_python_value(kind, v):
+    if kind == "AttrGraph":
+        import spox.opset.ai.onnx.v17 as op
+        from spox._graph import subgraph
+
+        f = op.add if v == "Add" else op.mul
+        return subgraph([L.spox_type_of_tspec(T23)], lambda x: [f(x, x)])
     if kind == "AttrTensor":
         return _array(v)
     if kind == "AttrTensors":
@@ -150,6 +158,8 @@ def attr_python_value(kind, v):
 
 
 def attr_payload(kind, v):
+    if kind == "AttrGraph":
+        return f"G:1in:1out:{v}"
     if kind == "AttrTensors":
         return L.attr_payload_from_value(PROTO_KIND[kind], [_array(x) for x in v])
     if kind == "AttrType":
@@ -629,8 +639,15 @@ def check_case(run, rec, coq_jobs, st):
     exp_attrs = []
     for (key, kind, _o), av in zip(sig["attrs"], case["attr_vals"]):
         if av is not None:
-            exp_attrs.append((av[0], int(PROTO_KIND[kind]), attr_payload(kind, av[1])))
-    got_attrs = [(a.name, int(a.type), L.attr_payload_from_proto(a)) for a in n.attribute]
+            # a subgraph attribute is emitted under the FIELD name, every other kind under the Attr object's own name
+            exp_attrs.append((key if kind == "AttrGraph" else av[0], int(PROTO_KIND[kind]), attr_payload(kind, av[1])))
+
+    def obs_payload(a):
+        if a.type == AttributeProto.GRAPH:
+            ops = [x.op_type for x in a.g.node if x.op_type in ("Add", "Mul")]
+            return f"G:{len(a.g.input)}in:{len(a.g.output)}out:{','.join(ops)}"
+        return L.attr_payload_from_proto(a)
+    got_attrs = [(a.name, int(a.type), obs_payload(a)) for a in n.attribute]
     if got_attrs != exp_attrs:
         run.fail("impl", f"C18/attributes-not-verbatim/{'name' if [x[0] for x in got_attrs] != [x[0] for x in exp_attrs] else 'value'}",
                  "emitted attributes differ from the set Attr objects (name = the Attr's own name, declaration order, value)",
@@ -649,10 +666,12 @@ def check_case(run, rec, coq_jobs, st):
         run.fail("impl", f"C18/opset-import/{pos}", "the operator's domain is not imported exactly once at the highest version used",
                  dict(detail, expected=exp_ver, observed=imports))
     # adapter warnings: one per top-level node whose version differs from the imported one
-    exp_warn = sum(1 for d, v in reqs if v != exp_ver) if pos in ("top", "feeds-inline", "fed-by-inline") else \
-        (1 if sig["version"] != exp_ver else 0)
-    job["adapt"] = [f"adapt_decision false true false {coq_str(d)} [({coq_str(d)}, {v}%N)] {exp_ver}%N false" for d, v in reqs]
-    job["exp_adapt"] = ["UnchangedWarned" if v != exp_ver else "Unchanged" for d, v in reqs]
+    # a node carrying a subgraph attribute is skipped by adapt_best_effort altogether (no warning either)
+    has_graph = [any(kind == "AttrGraph" and av is not None for (_k, kind, _o), av in zip(sig["attrs"], case["attr_vals"]))] + [False] * (len(reqs) - 1)
+    exp_warn = sum(1 for (d, v), hg in zip(reqs, has_graph) if v != exp_ver and not hg)
+    job["adapt"] = [f"adapt_decision false true {'true' if hg else 'false'} {coq_str(d)} [({coq_str(d)}, {v}%N)] {exp_ver}%N false"
+                    for (d, v), hg in zip(reqs, has_graph)]
+    job["exp_adapt"] = ["UnchangedWarned" if v != exp_ver and not hg else "Unchanged" for (d, v), hg in zip(reqs, has_graph)]
     job["obs_warns"] = len(b["adapter_warnings"])
     if pos in ("top", "feeds-inline", "fed-by-inline") and len(b["adapter_warnings"]) != exp_warn:
         run.fail("impl", f"C18/adapter-warnings/{pos}", "version-mismatch warnings differ from the nodes whose version is not the imported one",
@@ -664,8 +683,16 @@ def check_case(run, rec, coq_jobs, st):
     out_ids = [vid(o) for o in n.output]
     sig_t = L.coq_sig(sig["op"], sig["domain"], sig["version"], [tuple(x) for x in sig["ins"]], [tuple(x) for x in sig["outs"]], None)
     attrs_t = []
+    real_graphs = {a.name: a.g for a in n.attribute if a.type == AttributeProto.GRAPH}
+    bs = "(fun (k : string) (_ _ : list ty) => "
     for (key, kind, _o), av in zip(sig["attrs"], case["attr_vals"]):
-        attrs_t.append((key, None if av is None else (av[0], ("D", int(PROTO_KIND[kind]), attr_payload(kind, av[1])))))
+        if kind == "AttrGraph" and av is not None:
+            attrs_t.append((key, (av[0], ("G", [T23], [T23]))))
+            if key in real_graphs:   # the subgraph itself is the builder's business (C01/C04): the real one is handed to the model
+                bs += f"if seqb k {coq_str(key)} then {coq_graph(real_graphs[key])} else "
+        else:
+            attrs_t.append((key, None if av is None else (av[0], ("D", int(PROTO_KIND[kind]), attr_payload(kind, av[1])))))
+    bs += "dummy_subgraph k [] [])"
     outs_t, oi = [], 0
     for _sname, kind in sig["outs"]:
         if kind == "VARIADIC":
@@ -675,9 +702,16 @@ def check_case(run, rec, coq_jobs, st):
             outs_t.append(("S" if kind == "SINGLE" else "O", out_ids[oi]))
             oi += 1
     nm_t = "(fun v => " + "".join(f"if Nat.eqb v {i} then {coq_str(s)} else " for i, s in nm) + '"")'
-    job["emit"] = f"show_node (emit {nm_t} {coq_str(n.name)} dummy_subgraph {L.coq_call(sig_t, coq_ins, outs_t, attrs_t, [])})"
+    job["emit"] = f"show_node (emit {nm_t} {coq_str(n.name)} {bs} {L.coq_call(sig_t, coq_ins, outs_t, attrs_t, [])})"
     job["exp_emit"] = L.show_node(n)
     coq_jobs.append(job)
+
+
+def coq_graph(g):
+    def infos(vis):
+        return coq_list([f"({coq_str(v.name)}, {L.coq_oty(L.tspec_of_typeproto(v.type))})" for v in vis])
+    nodes = coq_list([f"({coq_str(x.op_type)}, {coq_list([coq_str(i) for i in x.input])}, {coq_list([coq_str(o) for o in x.output])})" for x in g.node])
+    return f"(Build_graph {coq_str(g.name)} {infos(g.input)} {infos(g.output)} {infos(g.value_info)} {nodes})"
 
 
 def _freeze(t):
@@ -846,7 +880,7 @@ def run(run: Run) -> int:
     return run.finish(cov, [
         "hook results are modelled as data tables; PropValue.check is replaced in the model by the harness' own conformance judgement",
         "names of Vars that are not model arguments (constants, body arguments, inline results) are read from the built model",
-        "AttrGraph attributes of user-defined operators are outside the generated vocabulary (subgraph building is C01/C04)",
+        "the contents of a subgraph attribute are the builder's business (C01/C04): the model is handed the real subgraph and decides only name and position",
     ])
 
 
